@@ -171,6 +171,30 @@ func C03(tier string) int {
 			}
 		}
 	}
+	// many recipients: 4..9, 12 and 17 visible recipients and one hidden one (bto or bcc) that comes last in the
+	// addressing order - it must still receive the delivery, on every entry point
+	for _, n := range []int{4, 5, 6, 7, 8, 9, 12, 17} {
+		for _, hk := range []string{"bto", "bcc"} {
+			for _, en := range entriesOf {
+				n := n
+				var to L
+				for i := 0; i < n; i++ {
+					to = append(to, Peer(i))
+				}
+				for si, body := range []M{
+					withKV(Emb("Note", "", "content", "many"), M{"@context": AS, "to": to[:n/2], "cc": to[n/2:], hk: Carol}),
+					{"@context": AS, "type": "Create", "actor": Alice, "to": to, hk: Carol, "object": Emb("Note", "", "content", "many")},
+					{"@context": AS, "type": "Like", "actor": Alice, "to": to[:1], "audience": to[1:], hk: L{Carol, Dave}, "object": RNote}} {
+					hidden := []string{Carol}
+					if si == 2 {
+						hidden = []string{Carol} // (Dave's inbox is a stored one in the base world: not asserted here)
+					}
+					cases = append(cases, c03case{name: fmt.Sprintf("%s/%s/many-%d shape=%d hidden=%s-last", en.entry, en.kind, n, si, hk), kind: en.kind, entry: en.entry, body: body, hidden: hidden,
+						tweak: func(a *ap.App) { ManyPeers(a, n) }})
+				}
+			}
+		}
+	}
 	// automatic Accept / Reject of a Follow that carries hidden recipients
 	for _, beh := range []pub.OnFollowBehavior{pub.OnFollowAutomaticallyAccept, pub.OnFollowAutomaticallyReject} {
 		for _, h := range hiddenOpts {
@@ -181,7 +205,7 @@ func C03(tier string) int {
 		}
 	}
 	res.Rule = fmt.Sprintf("outbox inputs {bare Note, bare Article, Create with 1..%d objects, Like/Announce/Update/Add with an embedded object, Follow} x hidden-recipient option {none, bto IRI, bcc IRI, bto embedded actor, bto+bcc lists, bcc Mention by href, bto Link with id and decoy href, empty bto next to bcc} independently on the activity and on every embedded object x to {absent, IRI} x {client POST with both protocols, client POST social-only, Send with both, Send federating-only}; inbox Follow with each option under auto-accept / auto-reject; every input with hidden recipients again under 5 application-data variants (sender record without inbox / minimal, sender's or all recipients' inboxes stored by the application, hidden recipients unreachable); GET handler: stored values of every type that has 'object', bto/bcc at object depth 0..3 in every list shape and at depths 4, 5, 8, 9, 10, 16 and 33 in two of them, object given embedded / in a mixed list after an IRI / by IRI / after a sibling that itself embeds two objects / as the third of three / before further siblings; %d delivery runs; oracle: every payload handed to the transport and every handler body is parsed and searched for bto/bcc", 2+map[bool]int{true: 1, false: 0}[res.Thorough()], len(cases))
-	res.Rule += "; plus, for every input shape and hidden-recipient set (quick: the first two cases of each; thorough: all), every single seam call failing: whatever fails on the way, no payload handed to the transport carries bto/bcc"
+	res.Rule += "; plus inputs with 4..9, 12 and 17 visible recipients and a hidden one last in the addressing order; plus, for every input shape and hidden-recipient set (quick: the first two cases of each; thorough: all), every single seam call failing: whatever fails on the way, no payload handed to the transport carries bto/bcc"
 	var mu sync.Mutex
 	chunk := 300
 	parallel((len(cases)+chunk-1)/chunk, func(ci int) {
